@@ -956,9 +956,9 @@ def run(ctx):
     ])
 
 
-PENDING = ["Map.customizedUnion/union/merge/update refinement", "Set refinement theorems beyond size/elements",
-           "ops_refine for histories mixing all operations"]
-
+PENDING = ["Map.update / customizedUnion / union / merge refinement theorems (modelled and differentially checked, not proved)",
+           "Set.subset / Set.map refinement theorems (modelled and differentially checked, not proved)",
+           "Map.compare/equal, Set.compare/equal, iter: not modelled"]
 
 def replay(ctx, path):
     common.build_harness("C18"); common.build_lean(["drv-c18"])
